@@ -283,3 +283,9 @@ Fixpoint is_prefix (p s : bytes) : bool :=
 Fixpoint plain_find (k : nat) (s pat : bytes) (pos : Z) : option Z :=
   if is_prefix pat (skipn (Z.to_nat pos) s) then Some pos
   else match k with O => None | S k' => plain_find k' s pat (pos + 1) end.
+
+(* which search string.find / match take: StrPatt.create (after d52527d: a pattern without special characters is
+   searched as plain text by string.find - its fourth argument - and goes through the matcher for the other
+   functions) against lstrlib.c str_find_aux (find && (plain || nospecials(p))) *)
+Definition nl_use_plain (pat : bytes) (plain find : bool) : bool := if has_specials pat then plain else find.
+Definition lua_use_plain (pat : bytes) (plain find : bool) : bool := find && (plain || negb (has_specials pat)).
